@@ -399,3 +399,33 @@ Print Assumptions C05_regressor_checks_first.
    1-D is refused with the dimension error, n_components=7 is refused, 0 and None are accepted *)
 Example C05_guard_nonvacuous : guard_examples_stmt.
 Proof. exact guard_examples. Qed.
+
+(* ---- svd_solver="auto" resolution (Model/KPCovRGuard.v) -------------------------------------------
+   n = n_samples, d = n_features, k = n_components_.  Problems with max(n, d) <= 500 - the bound
+   included - are decomposed with the full SVD whatever k; above, the randomized solver is used
+   exactly when 1 <= k < 0.8 max(n, d); an explicit solver is kept. *)
+Theorem C05_auto_solver_small_is_full :
+  forall n d k : BinNums.Z, BinInt.Z.le (BinInt.Z.max n d) (BinInt.Z.of_nat 500) -> resolve_solver SAuto n d k = SFull.
+Proof. exact auto_small_is_full. Qed.
+Print Assumptions C05_auto_solver_small_is_full.
+
+Theorem C05_auto_solver_large :
+  forall n d k : BinNums.Z,
+    BinInt.Z.lt (BinInt.Z.of_nat 500) (BinInt.Z.max n d) ->
+    (resolve_solver SAuto n d k = SRandomized
+     <-> BinInt.Z.le (BinInt.Z.of_nat 1) k /\ BinInt.Z.lt (BinInt.Z.mul (BinInt.Z.of_nat 5) k) (BinInt.Z.mul (BinInt.Z.of_nat 4) (BinInt.Z.max n d))) /\
+    (resolve_solver SAuto n d k = SFull
+     <-> ~ (BinInt.Z.le (BinInt.Z.of_nat 1) k /\ BinInt.Z.lt (BinInt.Z.mul (BinInt.Z.of_nat 5) k) (BinInt.Z.mul (BinInt.Z.of_nat 4) (BinInt.Z.max n d)))).
+Proof. exact auto_large_spec. Qed.
+Print Assumptions C05_auto_solver_large.
+
+Theorem C05_explicit_solver_kept :
+  forall (s : solver) (n d k : BinNums.Z),
+    (s <> SAuto -> resolve_solver s n d k = s) /\ resolve_solver s n d k <> SAuto.
+Proof. exact explicit_solver_kept. Qed.
+Print Assumptions C05_explicit_solver_kept.
+
+(* [solver_examples_stmt]: (n, d, k) = (499,3,4), (500,3,4) -> full; (501,3,4), (5,501,3) -> randomized;
+   (501,3,401) -> full; explicit arpack kept *)
+Example C05_solver_nonvacuous : solver_examples_stmt.
+Proof. exact solver_examples. Qed.
